@@ -423,7 +423,8 @@ def r2011_regions(ctx):
     c = r.params["costs"]
     cells = [None, {}, {"fp": 1.0}, {"fn": 1.0}, {"fp": 1.0, "fn": 1.0}, {"fp": 0.0, "fn": 0.0}, {"fp": -1.0, "fn": 2.0},
              {"fp": 2.0, "fn": -1.0}, {"fp": 0.0, "fn": 1.0}, {"fp": 1.0, "fn": 0.0}, {"fp": 1.0, "fn": 1.0, "x": 0.0},
-             [1.0, 1.0], "costs", 3.0]
+             [1.0, 1.0], "costs", 3.0, {"fp": float("nan"), "fn": 1.0}, {"fp": 1.0, "fn": float("nan")},
+             {"fp": float("-inf"), "fn": float("inf")}]
     bad = []
     for v in cells:
         env = {c: v}
